@@ -182,6 +182,10 @@ def run(chk, repo, tier):
             sh = shared_with_params(eng, fi, res['ret'])
             chk.ob('C19.RESULT', where, f'result of {q} shares no mutable state with an operand', not sh,
                    'result can reach ' + ', '.join(sh[:4]) if sh else '', key=f'C19.RESULT|{q}')
+    chk.rule('C19.ALIAS', 'a returned MPS / MPO does not share one array between its own sites (list repetition of a mutable '
+                          'element), so that an in-place edit of one site tensor cannot change another')
+    from . import arith
+    arith.aliasing_rules(chk, repo, 'C19.ALIAS')
     # built-in positive examples: the engine must see a write / a sharing where there is one
     selftest(chk, repo, eng)
     chk.floor('C19.PURE', n_pure, 80, hard_min=40)
